@@ -271,4 +271,107 @@ theorem v2Key_ne_marker_long {p : Str} (hp : p ≠ []) (sfx : Str → Str) {k : 
   have : ("kopf-managed".toList).length = 12 := by decide
   omega
 
+/-! ## how many names `make_keys` yields -/
+
+theorem v1Key_eq_v2Key_of_room {p : Str} {sfx : Str → Str} {k : Str}
+    (h : (pre p).length + k.length ≤ 63) : v1Key p sfx k = v2Key p sfx k := by
+  have hk : k.length ≤ 63 := by omega
+  have hi : ((safeKey k).length : Int) ≤ 63 - ((pre p).length : Int) := by
+    rw [safeKey_length]; omega
+  have hnn : (0 : Int) ≤ 63 - ((pre p).length : Int) - (([] : Str).length : Int) := by simp; omega
+  rw [v1Key_eq, v2Key_eq, v2Name_short hk]
+  congr 1
+  simp only [v1Name, hi, if_true, List.append_nil]
+  rw [pyTake_nonneg _ hnn, List.take_of_length_le]
+  rw [safeKey_length]; simp; omega
+
+/-- one name only: V1 keys switched off, or no room for them (prefix of 55+ characters), or the
+    id is short enough to be its own V1 name -/
+theorem makeKeys_single {p : Str} {v1 : Bool} {sfx : Str → Str} {k : Str}
+    (h : v1 = false ∨ v1Fits p sfx = false ∨ (pre p).length + k.length ≤ 63) :
+    makeKeys p v1 sfx k = [v2Key p sfx k] := by
+  unfold makeKeys
+  rcases h with h | h | h
+  · simp [h]
+  · simp [h]
+  · simp [v1Key_eq_v2Key_of_room h]
+
+theorem makeKeys_subset (p : Str) (v1 : Bool) (sfx : Str → Str) (k : Str) :
+    ∀ n ∈ makeKeys p v1 sfx k, n = v2Key p sfx k ∨ (n = v1Key p sfx k ∧ v1 = true ∧ v1Fits p sfx = true) := by
+  intro n hn
+  unfold makeKeys at hn
+  split at hn
+  · rename_i h
+    simp only [Bool.and_eq_true] at h
+    simp at hn
+    rcases hn with rfl | rfl
+    · exact Or.inl rfl
+    · exact Or.inr ⟨rfl, h.1.1, h.1.2⟩
+  · simp at hn; exact Or.inl hn
+
+/-- the V1 name of an id too long to be its own V1 name, when there is room for the suffix -/
+theorem v1Name_hashed {p : Str} {sfx : Str → Str} {k : Str}
+    (h : 63 < (pre p).length + k.length) (hl : (pre p).length + (sfx (safeKey k)).length < 63) :
+    v1Name p sfx k =
+      (safeKey k).take (63 - (pre p).length - (sfx (safeKey k)).length) ++ sfx (safeKey k) ∧
+    ((safeKey k).take (63 - (pre p).length - (sfx (safeKey k)).length)).length
+      = 63 - (pre p).length - (sfx (safeKey k)).length := by
+  have hi : ¬ ((safeKey k).length : Int) ≤ 63 - ((pre p).length : Int) := by
+    rw [safeKey_length]; omega
+  have hnn : (0 : Int) ≤ 63 - ((pre p).length : Int) - ((sfx (safeKey k)).length : Int) := by omega
+  constructor
+  · simp only [v1Name, hi, if_false]
+    rw [pyTake_nonneg _ hnn]
+    congr 2
+    omega
+  · rw [List.length_take, safeKey_length]; omega
+
+theorem v1Fits_iff (p : Str) (sfx : Str → Str) : v1Fits p sfx = true ↔ (pre p).length + (sfx []).length < 63 := by
+  simp [v1Fits]
+
+/-- two ids that are both too long to be their own V1 names, with different V2 names and different
+    (equally long) digests of their safe forms, share no annotation name at all -/
+theorem names_disjoint_hashed {p : Str} (hp : p ≠ []) {sfx : Str → Str} {k k' : Str}
+    (hb : 63 < (pre p).length + k.length) (hb' : 63 < (pre p).length + k'.length)
+    (hroom : (pre p).length + (sfx (safeKey k)).length < 63)
+    (hsl : (sfx (safeKey k)).length = (sfx (safeKey k')).length)
+    (hsne : sfx (safeKey k) ≠ sfx (safeKey k'))
+    (hlong : k.length > 63 → (sfx k).length ≤ 63) (hlong' : k'.length > 63 → (sfx k').length ≤ 63)
+    (hv2 : v2Key p sfx k ≠ v2Key p sfx k') (v1 : Bool) :
+    ∀ n ∈ makeKeys p v1 sfx k, ∀ n' ∈ makeKeys p v1 sfx k', n' ≠ n := by
+  have hpl := pre_length hp
+  -- lengths of the name parts
+  have hv2len : ∀ x : Str, 63 < (pre p).length + x.length → (x.length > 63 → (sfx x).length ≤ 63) →
+      63 - (pre p).length < (v2Name sfx x).length := by
+    intro x hx hxl
+    by_cases h63 : x.length > 63
+    · rw [v2Name_long h63, List.length_append, v2Name_long_length h63 (hxl h63)]
+      have := hxl h63; omega
+    · rw [v2Name_short (by omega), safeKey_length]; omega
+  obtain ⟨e1, l1⟩ := v1Name_hashed hb hroom
+  obtain ⟨e1', l1'⟩ := v1Name_hashed (sfx := sfx) hb' (by omega)
+  have hv1len : (v1Name p sfx k).length = 63 - (pre p).length := by
+    rw [e1, List.length_append, l1]; omega
+  have hv1len' : (v1Name p sfx k').length = 63 - (pre p).length := by
+    rw [e1', List.length_append, l1']; omega
+  intro n hn n' hn' e
+  subst e
+  rcases makeKeys_subset p v1 sfx k n' hn with h | ⟨h, _, _⟩ <;>
+    rcases makeKeys_subset p v1 sfx k' n' hn' with h' | ⟨h', _, _⟩
+  · exact hv2 (h.symm.trans h')
+  · -- v2 name of k = v1 name of k'
+    rw [h, v2Key_eq, v1Key_eq] at h'
+    have := congrArg List.length (List.append_cancel_left h')
+    have := hv2len k hb hlong
+    omega
+  · rw [h, v2Key_eq, v1Key_eq] at h'
+    have := congrArg List.length (List.append_cancel_left h')
+    have := hv2len k' hb' hlong'
+    omega
+  · rw [h, v1Key_eq, v1Key_eq] at h'
+    have e2 := List.append_cancel_left h'
+    rw [e1, e1'] at e2
+    have := List.append_inj e2 (by rw [l1, l1', hsl])
+    exact hsne this.2
+
 end Kopf.C16
